@@ -23,7 +23,8 @@ OP = "cuqi/operator/_operator.py"
 
 
 def _norm(e) -> str:
-    return unparse(e).replace(" ", "").replace("\n", "")
+    from .common import vstr
+    return vstr(e)
 
 
 def _bc_table(fn) -> Dict[str, Dict[str, str]]:
